@@ -1,0 +1,49 @@
+//go:build verif
+
+package pubsub
+
+import (
+	"io"
+	"log/slog"
+)
+
+// Verification-only accessors for the buffered event tracers (tracer.go), family X08.
+// Add-only: thin constructors that do exactly what OpenJSONTracer / OpenPBTracer do after
+// os.OpenFile succeeded, but over a caller-supplied io.WriteCloser (so the harness can
+// gate the writer goroutine inside Write), and read-only views of basicTracer's state.
+
+// VerifNewJSONTracerW is OpenJSONTracer over an arbitrary io.WriteCloser. lossy sets the
+// basicTracer flag that only NewRemoteTracer sets in the library.
+func VerifNewJSONTracerW(w io.WriteCloser, lossy bool) *JSONTracer {
+	tr := &JSONTracer{w: w, basicTracer: basicTracer{ch: make(chan struct{}, 1), lossy: lossy, logger: slog.New(slog.DiscardHandler)}}
+	go tr.doWrite()
+	return tr
+}
+
+// VerifNewPBTracerW is OpenPBTracer over an arbitrary io.WriteCloser.
+func VerifNewPBTracerW(w io.WriteCloser, lossy bool) *PBTracer {
+	tr := &PBTracer{w: w, basicTracer: basicTracer{ch: make(chan struct{}, 1), lossy: lossy, logger: slog.New(slog.DiscardHandler)}}
+	go tr.doWrite()
+	return tr
+}
+
+// VerifBufLen is the number of events waiting in the shared buffer (not yet taken by the writer goroutine).
+func (t *basicTracer) VerifBufLen() int {
+	t.mx.Lock()
+	defer t.mx.Unlock()
+	return len(t.buf)
+}
+
+// VerifLossy reports the lossy flag.
+func (t *basicTracer) VerifLossy() bool {
+	t.mx.Lock()
+	defer t.mx.Unlock()
+	return t.lossy
+}
+
+// VerifClosed reports whether Close has taken effect.
+func (t *basicTracer) VerifClosed() bool {
+	t.mx.Lock()
+	defer t.mx.Unlock()
+	return t.closed
+}
